@@ -101,6 +101,9 @@ package keeper
 //@ ensures err == nil ==> power <= stakedPow(old(Store_restake), stakerAddr) + types.delegatorBonded(Other, stakerAddr)
 //@ ensures err == nil ==> activeVault(Store_restake, key)
 //@ ensures err == nil ==> has(Store_restake, types.LockStoreKey(stakerAddr, key)) && lockAt(Store_restake, stakerAddr, key).Power == power && lockAt(Store_restake, stakerAddr, key).Key == key
+// ... and it is INDEXED: the withdrawal guard (isValidPower) walks the by-power index, not the lock records - also when
+// the lock is set again to the power it already had
+//@ ensures err == nil ==> has(Store_restake, types.LockByPowerIndexKey(lockAt(Store_restake, stakerAddr, key)))
 
 // ---- C16: genesis --------------------------------------------------------------------------------------------
 // sum of the coins of the first n genesis stakes
@@ -123,4 +126,22 @@ package keeper
 //@ modifies Store_restake
 //@ ensures err == nil ==> Store_restake == store(old(Store_restake), types.ParamsKey, enc(p))
 //@ ensures err == nil ==> (forall i Int, j Int :: 0 <= i && i < j && j < len(rparams(Store_restake).AllowedDenoms) ==> rparams(Store_restake).AllowedDenoms[i] != rparams(Store_restake).AllowedDenoms[j])
+//@ ensures err != nil ==> Store_restake == old(Store_restake)
+
+// ---- C16: a deactivated vault stops constraining and can never be reactivated -------------------------------------------
+//@ spec vaultAt(s Store, key Str) types.Vault = dec(types.Vault, s[types.VaultStoreKey(key)])
+// get-or-create never touches an existing vault record (in particular it does not turn an inactive vault active again);
+// it creates an ACTIVE vault only where there was none; nothing else in the store changes
+//@ func (k Keeper) GetOrCreateVault
+//@ modifies Store_restake
+//@ ensures err == nil
+//@ ensures old(has(Store_restake, types.VaultStoreKey(key))) ==> Store_restake == old(Store_restake) && result == old(vaultAt(Store_restake, key))
+//@ ensures !old(has(Store_restake, types.VaultStoreKey(key))) ==> Store_restake == store(old(Store_restake), types.VaultStoreKey(key), enc(types.Vault{key, true})) && result == types.Vault{key, true}
+// deactivation: only an existing active vault, which becomes inactive and keeps its key; a failure changes nothing
+// (store invariant: a vault record is filed under its own key - SetVault, the only writer, files it under vault.Key)
+//@ func (k Keeper) DeactivateVault
+//@ modifies Store_restake
+//@ requires has(Store_restake, types.VaultStoreKey(key)) ==> vaultAt(Store_restake, key).Key == key
+//@ ensures err == nil ==> old(activeVault(Store_restake, key)) && !activeVault(Store_restake, key)
+//@ ensures err == nil ==> Store_restake == store(old(Store_restake), types.VaultStoreKey(key), enc(with(old(vaultAt(Store_restake, key)), "IsActive", false)))
 //@ ensures err != nil ==> Store_restake == old(Store_restake)
